@@ -46,9 +46,14 @@ def check_census(ctx, version, path, case):
             continue
         if isinstance(p, BTreePage):
             ctx.mark(("page", path, n), nontrivial=bool(p.freeblocks or p.fragments))
-            if C.page_free_space(p) != stat[n][2]:
+            unused = stat[n][2]
+            if p.size == 65536 and p.header.cell_content_offset == 65536:
+                # dbstat reads the content-offset field with get2byte (0) instead of get2byteNotZero (65536): its
+                # figure for such a page is 65536 too small (SQLite's btreeComputeFreeSpace itself uses 65536)
+                unused += 65536
+            if C.page_free_space(p) != unused:
                 ctx.oracle_fail("free-space", "free space derived from the layout differs from SQLite's figure",
-                                dict(case, page=n), C.page_free_space(p), stat[n][2])
+                                dict(case, page=n), C.page_free_space(p), unused)
             if len(p.cells) != stat[n][3]:
                 ctx.oracle_fail("ncell", "cell count differs from dbstat", dict(case, page=n), len(p.cells), stat[n][3])
             # tiling: regions in address order are contiguous from the content offset to the page end
@@ -77,10 +82,15 @@ def check_census(ctx, version, path, case):
             ctx.branch("ptrmap-pages")
 
 
+# boundary shapes every run must contain: exactly 60 fragmented bytes on a page (20 x 3), just below, a wide table
+FORCE = {"fragmenter": lambda i: [(20, 3), None, (19, 3), None, (21, 3), None, (40, 2), None][i % 8],
+         "wide_table": lambda i: [0, 0, 0, 300, 0, 0, 0, 150][i % 8]}
+
+
 def run(ctx, n_quick=40, n_thorough=500):
     sc = C.Scratch()
     try:
-        for b in C.build_databases(ctx, sc, C.n_databases(ctx, n_quick, n_thorough)):
+        for b in C.build_databases(ctx, sc, C.n_databases(ctx, n_quick, n_thorough), force=FORCE):
             case = {"cfg": b.cfg, "seed": ctx.seed}
             impl, db, exc = C.compare_db_dump(ctx, b.path, "db.dump")
             if db is None:
